@@ -95,6 +95,17 @@ pub fn convert_grammar_functions_to_semantic_functions(
         make_padding_functions(&mut output, size);
     }
 
+    // Placeholders are named after their slot: a declared function must not have such a name too
+    let mut names = std::collections::HashSet::new();
+    for function in &output {
+        if !names.insert(function.name.as_str()) {
+            anyhow::bail!(
+                "vftable function `{}` has the name of the placeholder generated for an unnamed slot",
+                function.name
+            );
+        }
+    }
+
     fn make_padding_functions(output: &mut Vec<Function>, target_len: usize) {
         let functions_to_add = target_len.saturating_sub(output.len());
         for _ in 0..functions_to_add {
